@@ -76,6 +76,9 @@ func (refmux) Generate(r *core.PRNG, tier string, idx int64) any {
 			cfg.PMT = 1
 		}
 	}
+	if idx%300 == 9 && cfg.ES > 0 {
+		cfg.HugePES = true // a unit of more than a thousand packets
+	}
 	sc := &RefMuxScenario{Model: GenModel(r, cfg)}
 	sc.Demux.PacketSize = 188
 	sc.Demux.Reader = genReaderPlan(r, []string{"seekable", "plain"})
